@@ -17,6 +17,16 @@ Mutation testing (scratch worktree of /repo at the fixed tree, VERIF_REPO=<dir>,
                          makes union/minus/intersect "disjoint"                           green  -> VIOLATION
                          (reached by Gen.makeDiff: set operations between sources with different column
                          sets, the extra column fixed by where/extend to "" or a set with "", either side)
+  explode-spans-shared-prefix-r2 (seeded/C22-explode-spans-shared-prefix-r2, independently written, round 2)
+                         where3.go explodeIndexSpans: the prefixes extended with the alternatives of the
+                         4th (6th-8th) index column share one backing array         green  -> VIOLATION
+                         (missed before: no table had more than three columns, so no index had four.
+                         Reached by the "wide" profile = VERIF_CORNER=wide: a five column table t5 whose
+                         rows agree on leading columns, and Gen.spanWhere: wheres that constrain the columns
+                         of a composite index - present in every configuration - one by one to a point /
+                         several points / all but a point / a range, also below join, semijoin, intersect,
+                         sort; spec: Relational.tla Explode/IndexReads + MC law LawIndexSpans, deviation
+                         DevSharedPrefix = Relational_dev_sharedprefix.cfg must violate it)
   (lj2join, gt-range, covered-multi, union-disjoint-loose, minus-copyfixed-both, ...: the package's own
    tests are already red for them; gt-range is equivalent - where re-filters the rows of its index range)
 On the tree without the fix commits the check reports F10 and the other defects listed as `fixed:` in
@@ -31,7 +41,7 @@ import relcommon
 META = {
  "engine": "tla-relational",
  "text": "TLC evaluates the relational denotation (Relational.tla Denote: table, where, project/remove, rename, extend, summarize, join/leftjoin/semijoin, times, union, intersect, minus, sort, views) of ASTs produced by the harness's own generator; the REAL query layer runs the rendered text on a heap database under many configurations (tables recreated with different key/index sets and layer states, Setup/Setup1/SetupKey/SetupIdx and Optimize+SetApproach with none/order/group/unique requirements, read/update/cursor mode, forwards and backwards, randomBest/ticostAdj/joinRev knobs); every distinct outcome must equal the denotation, each row once. The denotation itself is model-checked against algebraic laws over every tiny database.",
- "note": "trusts TLC + CommunityModules Json, the harness generator/renderer (AST -> text), the rank table for strings; values limited to \"\", booleans, small integers/rationals and 6 strings; tables <= 6 rows; queries <= 14 nodes; expressions avoid the documented \"\"-versus-number ordering exception",
+ "note": "trusts TLC + CommunityModules Json, the harness generator/renderer (AST -> text), the rank table for strings; values limited to \"\", booleans, small integers/rationals and 6 strings; tables <= 6 rows (t5 of the wide profile <= 14); queries <= 14 nodes; expressions avoid the documented \"\"-versus-number ordering exception",
  "technique": "TLA+ denotational oracle evaluated by TLC (trace validation) + exhaustive TLC check of the oracle's algebraic laws",
 }
 
@@ -61,14 +71,17 @@ def classify(ev, opened=None):
 
 
 def run(ctx):
-    relcommon.exhaustive(ctx)
+    # LawIndexSpans: reading a composite index once per exploded prefix = the where, each row once;
+    # the deviation (prefixes sharing storage) must violate it
+    relcommon.exhaustive(ctx, devs=[("Relational_dev_sharedprefix.cfg", "LawIndexSpans")])
     if relcommon.replayed(ctx, classify, None):
         return
     drv = ctx.go_build("relational")
     ok = True
     profiles = [("core", "", 300 if ctx.thorough() else 40, 40),
                 ("emptykey", "emptykey", 60 if ctx.thorough() else 8, 30),
-                ("wholerow", "wholerow", 60 if ctx.thorough() else 8, 30)]
+                ("wholerow", "wholerow", 60 if ctx.thorough() else 8, 30),
+                ("wide", "wide", 80 if ctx.thorough() else 10, 24)]
     for name, corner, nscen, nq in profiles:
         trace = ctx.work + "/c22-%s.ndjson" % name
         rc, out, summ = ctx.driver(drv, ["c22", trace, nscen, nq], timeout=1200,
@@ -85,7 +98,9 @@ def run(ctx):
     ctx.assumptions += [
         "the AST the oracle sees and the text gSuneido parses come from the same generator node (renderer trusted)",
         "profiles: core = tables with non-empty keys, whole-row min/max only as the whole query; "
-        "emptykey = singleton tables declared key(); wholerow = whole-row min/max below other operators",
+        "emptykey = singleton tables declared key(); wholerow = whole-row min/max below other operators; "
+        "wide = an additional five column table t5 (6-14 rows) with keys/indexes of four and five columns, "
+        "two thirds of the queries are wheres constraining the columns of one composite index",
         "union/intersect/minus between sources with different columns: a missing column counts as \"\" "
         "(Compatible.equal); intersect has the common columns, minus the columns of its first source",
         "verif accessors dbms/query/verif_knobs.go set the existing test knobs randomBest/ticostAdj/joinRev",
